@@ -66,8 +66,9 @@ def _hyper_target(c, kind, n, bc='zero', order=1, scalar_mean=False):
     mean = c.vec('mu', n) if not scalar_mean else c.real('mu')
     if kind == 'cov': x = Gaussian(mean, cov=lambda s: 1 / s, geometry=n, name='x')
     elif kind == 'prec': x = Gaussian(mean, prec=lambda s: s, geometry=n, name='x')
-    elif kind == 'GMRF':
-        x = GMRF(mean, lambda s: s, bc_type=bc, order=order, geometry=cuqi.geometry.Continuous1D(n), name='x')
+    elif kind in ('GMRF', 'GMRF2D'):
+        geom = cuqi.geometry.Continuous1D(n) if kind == 'GMRF' else cuqi.geometry.Image2D((int(round(n ** 0.5)),) * 2)      # (2-D: n is the number of pixels)
+        x = GMRF(mean, lambda s: s, bc_type=bc, order=order, geometry=geom, name='x')
         if c.sym:
             shims.symbolize_operators(x)
             if bc == 'zero': x._chol = shims.STag(shims.sym_cholesky(np.asarray(x._prec_op.get_matrix().a)))
@@ -176,6 +177,9 @@ def jobs(tier):
             for order in (1, 2):
                 if order == 2 and bc == 'neumann': continue
                 J.append(Job(f'{tag}.Conjugate:GMRF:bc={bc}:order={order}:n=4', lambda c, i=iface, bc=bc, o=order: conjugate_exact(c, i, 'GMRF', 4, bc, o), 'Pbox', fl, extra=_extra, rtol=1e-4, timeout=600))
+        # two-dimensional fields (the stacked difference operator has more rows than the field has pixels)
+        for bc, order in (('zero', 1), ('zero', 2)) + (() if q else (('periodic', 1),)):
+            J.append(Job(f'{tag}.Conjugate:GMRF2D:bc={bc}:order={order}:2x2', lambda c, i=iface, bc=bc, o=order: conjugate_exact(c, i, 'GMRF2D', 4, bc, o), 'Pbox', fl + ['cuqi.distribution._gmrf:GMRF.sqrtprec'], extra=_extra, rtol=1e-4, timeout=600))
     for dep in ('cov=c/s', 'cov=1/s^2', 'cov=s', 'cov=1/(s+b)', 'prec=c*s', 'prec=s^2', 'prec=s^3', 'prec=1/s', 'prec=s+b', 'sqrtprec=s', 'two_occurrences', 'vector_gamma', 'vector_rate_gamma', 'geometry2_gamma'):
         J.append(Job(f'experimental.Conjugate:rejects:{dep}', lambda c, d=dep: rejects(c, d), 'Pbox',
                      ['cuqi.experimental.mcmc._conjugate:_GaussianGammaPair.validate_target', 'cuqi.experimental.mcmc._conjugate:_check_conjugate_parameter_is_scalar_identity',
